@@ -54,6 +54,11 @@ RULES = r"""
 
    inSpawn.  The site lies in an `async [move] {..}` block inside the argument list of `spawn(..)`.  Arguments of `spawn`
    outside such a block (`spawn(f(a, g()?))`) are evaluated by the loop itself: `inSpawn = false`.
+   inPushedFuture.  The site lies in a future that the loop hands to one of its own future sets `X` (`let X =
+   FuturesUnordered::new()` before the loop, never re-bound inside): in an `async [move] {..}` block inside the argument list
+   of `X.push(..)`, or in the body of a closure of the prelude `let NAME = [move] |params| async [move] {..};` that is called
+   inside such an argument list (`X.push(NAME(args))`; its parameters are flow data).  Such a future is polled by the
+   `select!` arm `PAT = X.next()`, together with the other arms: it is not part of the loop's own straight line.
 
    Flow data (taint), by name, growing in source order over one loop body; names bound outside the loop are clean:
      * the payload of an own-resource source operation (below): names bound by the pattern that receives it (`let`, `match`
@@ -76,6 +81,9 @@ RULES = r"""
        let (_, X) = ..mpsc::channel..(..)  | parameter X: Receiver<..>                receiver  recv()        Option  source
        let (A, B) = ...split()             A: sink  send(..) Result sink ;  B: stream  next() Option<Result>  source
        let X = ..time::interval(..)                                                   interval  tick()        infallible
+       let X = FuturesUnordered::new()                                                futset    next()        Option  source
+            (only as the future of a select! arm: `None` = the set is empty; an `X.next().await` anywhere else waits for
+             whatever the pushed futures wait for and is classified perFlow = true, service = false)
        [tokio::]time::sleep(..)                                                       timer                   infallible
    An await is `service = true` iff its expression is exactly `R.m(args)` with R an own resource and m its method (for a
    source operation and for `sleep` the arguments must mention no flow name; a sink operation may carry flow data).
@@ -132,6 +140,7 @@ RESOURCE_METHODS = {
     "sink": {"send": ("result", False)},
     "stream": {"next": ("optres", True)},
     "interval": {"tick": ("none", True)},
+    "futset": {"next": ("option", True)},   # only as the future of a select! arm
 }
 PARAM_TYPES = {"TcpListener": "listener", "UdpSocket": "udp", "Receiver": "receiver"}
 
@@ -224,11 +233,15 @@ class LoopWalker:
         self.bound = set()                  # every name bound inside the body
         self.used_resources = set()
         self.guards = []                    # classes: succ, sel, svcError, svcClosed, flowData, localState
-        self.in_spawn = False
+        self.in_spawn = False              # detached from the loop's own task: spawned, or pushed into an own future set
+        self.in_pushed = False             # .. the latter
         self.spawn_args = False
+        self.push_args = False
+        self.closures = {}                 # closures `let NAME = |..| async {..}` of the prelude: name -> (params, body)
         self.sites = []
         self.bare = set()                   # (lo, hi) ranges whose value is consumed structurally
         self.site_at = {}                   # token index of `await` -> site
+        self.walked_closures = set()
         self.allow_local = False            # callee summaries: an await that mentions no parameter is recorded, not refused
 
     def fail(self, what, i):
@@ -299,7 +312,7 @@ class LoopWalker:
 
     # ---- sites --------------------------------------------------------------------------------------------------
     def add_site(self, idx, kind, op, text, **kw):
-        s = dict(idx=idx, line=self.toks[idx].line, kind=kind, op=op, text=text, inSpawn=self.in_spawn, perFlow=False,
+        s = dict(idx=idx, line=self.toks[idx].line, kind=kind, op=op, text=text, inSpawn=self.in_spawn and not self.in_pushed, inPushedFuture=self.in_pushed, perFlow=False,
                  handled=False, service=False, fallible=False, selectHead=False, cause="none")
         s.update(kw)
         self.sites.append(s)
@@ -429,7 +442,10 @@ class LoopWalker:
         desc = None
         if not self.in_spawn:
             cl = self.classify_operand(lo, hi)
-            if cl is not None:
+            if cl is not None and cl[0] == "futset" and not select_head:
+                # waiting for one's own set of futures outside a select! waits for whatever those futures wait for
+                site["perFlow"] = True
+            elif cl is not None:
                 kind, m, shape, source, alo, ahi = cl
                 site["service"] = True
                 site["fallible"] = shape in ("result", "optres")
@@ -553,7 +569,7 @@ class LoopWalker:
         return "flowData", True
 
     def exits_in(self, first_site):
-        return any(s["kind"] in ("break_", "return_") and not s["inSpawn"] for s in self.sites[first_site:])
+        return any(s["kind"] in ("break_", "return_") and not s["inSpawn"] and not s["inPushedFuture"] for s in self.sites[first_site:])
 
     # ---- structured constructs ----------------------------------------------------------------------------------
     def first_brace(self, lo, hi, what):
@@ -815,6 +831,18 @@ class LoopWalker:
                     s = self.chain_back(i - 2)
                     site, desc = self.emit_await(i, s, i - 1)
                     self.forward_chain(site, desc, s, i + 1)
+                elif (w == "push" and f.is_p(i + 1, "(") and i - 2 >= self.lo and f.is_id(i - 2) and not f.is_p(i - 3, ".")
+                      and self.resources.get(toks[i - 2].text) == "futset" and toks[i - 2].text not in self.bound
+                      and not self.in_spawn):
+                    # a future handed to an own future set: it is polled by the select! arm `X.next()`, next to the loop's work
+                    close = self.match[i + 1]
+                    self.used_resources.add(toks[i - 2].text)
+                    saved = self.push_args
+                    self.push_args = True
+                    self.walk(i + 2, close)
+                    self.push_args = saved
+                    i = close + 1
+                    continue
                 elif w in PANIC_METHODS and f.is_p(i + 1, "("):
                     s = self.chain_back(i - 2)
                     site = self.add_site(i, "unwrap_", self.last_call_name(s, i - 1), f.render(s, i - 1) + "." + w + "(..)")
@@ -835,6 +863,30 @@ class LoopWalker:
             if w in ("loop", "while", "for"):
                 if not self.in_spawn:
                     self.fail("a loop nested in the loop's own task", i)
+                # a loop of a detached task / future: read its header, then its body, flat
+                if w == "while":
+                    b = self.first_brace(i + 1, hi, "while")
+                    if f.is_id(i + 1, "let"):
+                        eq = f.find_top(i + 2, b, lambda k: f.is_p(k, "="))
+                        if eq < 0:
+                            self.fail("`while let` without `=`", i)
+                        what = self.scrutinee(eq + 1, b)
+                        self.pattern_class(what, i + 2, eq)
+                    else:
+                        self.walk(i + 1, b)
+                    self.walk(b + 1, self.match[b])
+                    i = self.match[b] + 1
+                    continue
+                if w == "for":
+                    b = self.first_brace(i + 1, hi, "for")
+                    kin = f.find_top(i + 1, b, lambda k: f.is_id(k, "in"))
+                    if kin < 0:
+                        self.fail("`for` without `in`", i)
+                    self.walk(kin + 1, b)
+                    self.bind(i + 1, kin, self.expr_flow(kin + 1, b))
+                    self.walk(b + 1, self.match[b])
+                    i = self.match[b] + 1
+                    continue
                 i += 1
                 continue
             if w == "use":
@@ -851,12 +903,13 @@ class LoopWalker:
                     k += 1
                 if not f.is_p(k, "{"):
                     self.fail("`async` that is not a block", i)
-                if not (self.spawn_args or self.in_spawn):
-                    self.fail("an `async` block that is not an argument of spawn", i)
-                saved = (self.in_spawn, self.spawn_args)
-                self.in_spawn, self.spawn_args = True, False
+                if not (self.spawn_args or self.push_args or self.in_spawn):
+                    self.fail("an `async` block that is not an argument of spawn / of `push` on an own future set", i)
+                saved = (self.in_spawn, self.in_pushed, self.spawn_args, self.push_args)
+                self.in_pushed = self.in_pushed or (self.push_args and not self.in_spawn)
+                self.in_spawn, self.spawn_args, self.push_args = True, False, False
                 self.walk(k + 1, self.match[k])
-                self.in_spawn, self.spawn_args = saved
+                self.in_spawn, self.in_pushed, self.spawn_args, self.push_args = saved
                 i = self.match[k] + 1
                 continue
             if w == "spawn" and f.is_p(i + 1, "("):
@@ -896,6 +949,21 @@ class LoopWalker:
                 self.walk(g + 1, close)
                 i = close + 1
                 continue
+            if w in self.closures and f.is_p(i + 1, "(") and self.push_args and w not in self.bound:
+                # `X.push(NAME(args))` with `let NAME = |..| async {..}` of the prelude: the block is the pushed future
+                (plo, phi), (blo, bhi) = self.closures[w]
+                close = self.match[i + 1]
+                self.walk(i + 2, close)
+                if blo not in self.walked_closures:
+                    self.walked_closures.add(blo)
+                    for n in param_names(f, plo, phi):
+                        self.tainted.add(n)
+                    saved = (self.in_spawn, self.in_pushed, self.spawn_args, self.push_args, self.lo, self.guards)
+                    self.in_spawn, self.in_pushed, self.spawn_args, self.push_args, self.lo, self.guards = True, True, False, False, blo, []
+                    self.walk(blo, bhi)
+                    self.in_spawn, self.in_pushed, self.spawn_args, self.push_args, self.lo, self.guards = saved
+                i = close + 1
+                continue
             if w in self.svcvars:
                 # an own-resource result used other than as a scrutinee
                 self.svcvars[w].site["handled"] = False
@@ -908,6 +976,52 @@ class LoopWalker:
                 if not (site["service"] and not site["fallible"]):
                     return True
         return False
+
+
+def param_names(f, lo, hi):
+    """names of a parameter list [lo,hi): the identifiers in front of each top-level `:` (all identifiers when there is none)"""
+    out = []
+    p = lo
+    while p < hi:
+        comma = f.find_top(p, hi, lambda j: f.is_p(j, ","))
+        end = comma if comma >= 0 else hi
+        colon = f.find_top(p, end, lambda j: f.is_p(j, ":"))
+        stop = colon if colon > p else end
+        for k in range(p, stop):
+            if f.is_id(k) and f.toks[k].text not in ("mut", "self", "ref", "_"):
+                out.append(f.toks[k].text)
+        p = end + 1
+    return out
+
+
+def prelude_closures(f, lo, hi):
+    """`let NAME = [move] |params| async [move] {..};` in [lo,hi): NAME -> ((params), (body))"""
+    out = {}
+    for i in range(lo, hi):
+        if not (f.is_id(i, "let") and f.is_id(i + 1) and f.is_p(i + 2, "=")):
+            continue
+        k = i + 3
+        if f.is_id(k, "move"):
+            k += 1
+        if f.is_p(k, "||"):
+            params = (k + 1, k + 1)
+            k += 1
+        elif f.is_p(k, "|"):
+            j = f.find_top(k + 1, hi, lambda x: f.is_p(x, "|"))
+            if j < 0:
+                continue
+            params = (k + 1, j)
+            k = j + 1
+        else:
+            continue
+        if not f.is_id(k, "async"):
+            continue
+        k += 1
+        if f.is_id(k, "move"):
+            k += 1
+        if f.is_p(k, "{") and f.is_p(f.match[k] + 1, ";"):
+            out[f.toks[i + 1].text] = (params, (k + 1, f.match[k]))
+    return out
 
 
 def f_is_site_token(f, k):
@@ -1072,6 +1186,8 @@ def resources_of(f, params, body, loop_start, impl_of):
                     res[pat[0]] = "endpoint"
                 elif "time :: interval (" in tops:
                     res[pat[0]] = "interval"
+                elif tops in ("FuturesUnordered :: new (", "futures :: stream :: FuturesUnordered :: new (", "stream :: FuturesUnordered :: new ("):
+                    res[pat[0]] = "futset"
             elif is_tuple and len(pat) == 2:
                 if re.search(r"(^| )mpsc :: channel( :: < .* >)? \($", tops) or re.search(r"(^| )mpsc :: channel( :: <.*>)? \(", tops):
                     res[pat[1]] = "receiver"
@@ -1120,6 +1236,7 @@ def extract(root):
             name = fn if len(outer) == 1 else "%s_%d" % (fn, n + 1)
             res = resources_of(f, params, body, kw, impl_of)
             w = LoopWalker(f, fn, lbody[0], lbody[1], res, role)
+            w.closures = prelude_closures(f, body[0], kw)
             w.lo = header[0] if header else lbody[0]
             if header:
                 hlo, hhi = header
@@ -1153,7 +1270,7 @@ def extract(root):
                                                for k, v in res.items() if k in w.used_resources)))
             if role == "service":
                 for s in w.sites:
-                    if s["kind"] == "await_" and not s["inSpawn"] and not s["service"] and s.get("callee"):
+                    if s["kind"] == "await_" and not s["inSpawn"] and not s["inPushedFuture"] and not s["service"] and s.get("callee"):
                         callee_names.setdefault((rel, s["callee"]), []).append(name)
     # summaries of the functions of the same file that a service loop awaits in its own task
     notes = []
@@ -1230,8 +1347,8 @@ def emit(root, files, loops, notes):
         out.append("    sites := [")
         rows = []
         for s in l["sites"]:
-            rows.append("      { line := %d, kind := .%s, op := %s, text := %s,\n        inSpawn := %s, perFlow := %s, handled := %s, service := %s, fallible := %s, selectHead := %s, cause := .%s }" % (
-                s["line"], s["kind"], lstr(s["op"]), lstr(s["text"]), lbool(s["inSpawn"]), lbool(s["perFlow"]), lbool(s["handled"]),
+            rows.append("      { line := %d, kind := .%s, op := %s, text := %s,\n        inSpawn := %s, inPushedFuture := %s, perFlow := %s, handled := %s, service := %s, fallible := %s, selectHead := %s, cause := .%s }" % (
+                s["line"], s["kind"], lstr(s["op"]), lstr(s["text"]), lbool(s["inSpawn"]), lbool(s["inPushedFuture"]), lbool(s["perFlow"]), lbool(s["handled"]),
                 lbool(s["service"]), lbool(s["fallible"]), lbool(s["selectHead"]), s["cause"]))
         out.append(",\n".join(rows))
         out.append("    ] }")
